@@ -49,9 +49,9 @@ def Pub (t : Th) : Prop := t.qStmts = [] → t.q.rHist.headD 0 = t.q.rpos
 end Backend.PB
 namespace Backend
 /-- the reads of context `i` have been committed: if nothing is left to read, the reader position has been published
-    (`rHist` is the history of published reader positions, newest first). In quill every read of a queue that
-    consumed something ends with `commit_read`; the model's `readQueue` does so on every exit except exhaustion of
-    its loop fuel, and this predicate excludes the states left behind by that exit (see `Props/C09Backend.lean`). -/
+    (`rHist` is the history of published reader positions, newest first). Every read of a queue that consumed
+    something ends with `commit_read`, so this holds in every state between two operations of a schedule
+    (`PB.readsCommitted_runOps`, `Backend/PubInv.lean`). -/
 def ReadsCommitted (s : BSt) (i : Nat) : Prop :=
   (s.th i).qStmts = [] → (s.th i).q.rHist.headD 0 = (s.th i).q.rpos
 end Backend
